@@ -173,7 +173,13 @@ type genTriple struct {
 }
 
 const tlsDir = "/repo/internal/tlcodegen/test/tls/"
-const xsDir = "/verif/harness/gen/schemas/" // the harness's own extra schema sets (import cycles, same-named files in several input directories)
+// xsDir: the harness's own extra schema sets (import cycles, same-named files in several input directories)
+var xsDir = func() string {
+	if d := os.Getenv("VERIF_DIR"); d != "" {
+		return d + "/harness/gen/schemas/"
+	}
+	return "/verif/harness/gen/schemas/"
+}()
 
 func triples() []genTriple {
 	goBase := []string{"--language=go", "--copyrightPath=/repo/COPYRIGHT", "--basicPkgPath=github.com/VKCOM/tl/pkg/basictl", "--basicRPCPath=github.com/VKCOM/tl/pkg/rpc"}
